@@ -1,18 +1,17 @@
 #!/bin/bash
-# usage: tools_seed_eval.sh <seed root> [prop ...]   applies each <root>/<prop>/<k>/patch.diff to /repo, runs ./check <prop>, reverts.
-root=${1:-/verif/seeded}; shift
-props=${@:-$(ls $root)}
+# usage: tools_seed_eval.sh [tier] [seed-id ...]   applies each /verif/seeded/<id>/patch.diff to /repo, runs ./check <property>, reverts.
+tier=${1:-quick}; shift
+ids=${@:-$(ls /verif/seeded)}
 cd /verif
-for p in $props; do
-  for d in $root/$p/*/; do
-    [ -f $d/patch.diff ] || continue
-    if ! git -C /repo diff --quiet; then echo "REPO DIRTY, abort"; exit 3; fi
-    if ! git -C /repo apply --check $d/patch.diff 2>/dev/null; then echo "$p $(basename $d) PATCH-DOES-NOT-APPLY"; continue; fi
-    git -C /repo apply $d/patch.diff
-    prop=$p
-    [ -f $d/meta.json ] && prop=$(/venv/bin/python -c "import json;print(json.load(open('$d/meta.json'))['property'])")
-    out=$(./check $prop --tier quick 2>&1); rc=$?
-    git -C /repo checkout -- .
-    echo "$p $(basename $d) rc=$rc $(echo "$out" | grep -c '^VIOLATION') violation(s): $(echo "$out" | grep -v '^VIOLATION' | head -1 | cut -c1-220)"
-  done
+for n in $ids; do
+  d=/verif/seeded/$n
+  [ -f $d/patch.diff ] || continue
+  if ! git -C /repo diff --quiet; then echo "REPO DIRTY, abort"; exit 3; fi
+  if ! git -C /repo apply --check $d/patch.diff 2>/dev/null; then echo "$n PATCH-DOES-NOT-APPLY"; continue; fi
+  git -C /repo apply $d/patch.diff 2>/dev/null
+  prop=$(/venv/bin/python -c "import json;print(json.load(open('$d/meta.json'))['property'])")
+  out=$(./check $prop --tier $tier --no-selftest 2>&1); rc=$?
+  git -C /repo checkout -- .
+  echo "$n rc=$rc $(echo "$out" | grep -c '^VIOLATION') violation(s): $(echo "$out" | grep -v '^VIOLATION' | grep -v '^WARNING' | grep -v KNOWN-FINDING | head -1 | cut -c1-260)"
 done
+git -C /verif checkout -- evidence 2>/dev/null
